@@ -438,6 +438,9 @@ Proof.
     split; [discriminate|]. split; [reflexivity|]. vm_compute. repeat split.
 Qed.
 
+Lemma code_rechecks_true : code_rechecks = true.
+Proof. reflexivity. Qed.
+
 (* non-vacuity of the repaired protocol: the same schedules (one more step inside each critical section) *)
 Definition witness_r : list act :=
   [Step 0; Step 1; Step 0; Step 0; Step 0; Step 0; Step 0; Step 0; Step 1; Step 1; Step 1; Step 1]%nat.
